@@ -238,12 +238,30 @@ func checkC05(r *core.Run) {
 func c05FencePhase(r *core.Run, fn *core.FuncInfo, want string) {
 	info := fn.Pkg.TypesInfo
 	var got []string
-	ast.Inspect(fn.Decl.Body, func(n ast.Node) bool {
-		if c, ok := n.(*ast.CallExpr); ok && core.IsPkgFunc(core.Callee(info, c), pTM, "SetFencePhase") && len(c.Args) == 2 {
-			got = append(got, constName(core.ConstObj(info, c.Args[1])))
+	// the phase may be set by a set-up helper that receives it as a parameter: the helper is analysed in the
+	// caller's context, where the parameter is known to equal the constant the caller passed
+	res := (&flow.Spec{W: r.W, Depth: 0, Classify: func(pkg *packages.Package, call *ast.CallExpr, callee *types.Func) []flow.Tag {
+		if core.IsPkgFunc(callee, pTM, "SetFencePhase") && len(call.Args) == 2 {
+			return []flow.Tag{"setphase"}
 		}
-		return true
-	})
+		return nil
+	}}).Analyze(fn)
+	for _, cp := range res.Calls {
+		if !inSet("setphase", cp.Tags...) {
+			continue
+		}
+		c := core.ConstObj(info, cp.Call.Args[1])
+		if c == nil {
+			if o := core.ObjOf(info, cp.Call.Args[1]); o != nil {
+				c = cp.Before.Eq[o]
+			}
+		}
+		name := constName(c)
+		if cp.InLoop {
+			name += "(in a loop)"
+		}
+		got = append(got, name)
+	}
 	r.Sites++
 	r.Check(len(got) == 1 && got[0] == want, "C05.wiring", core.ShortKey(fn.Obj)+" : fence phase", r.W.Pos(fn.Decl.Pos()), "sets "+want, "expected the fence phase "+want+" to be set once, got ["+strings.Join(got, ",")+"]")
 }
@@ -339,6 +357,8 @@ func c05Ctx(r *core.Run, fn *core.FuncInfo, action string) {
 	if actionCall == nil || len(actionCall.Args) != 2 {
 		return
 	}
+	originFollowHelpers = true // the rebuilt context may come out of a phase-two set-up helper
+	defer func() { originFollowHelpers = false }()
 	bac := origin(fn, actionCall.Args[1], 4)
 	r.Sites++
 	// expected: call:<builder>(recv;  param.Xid, param.BranchId, param.ResourceId, param.ApplicationData)
@@ -354,14 +374,11 @@ func c05Ctx(r *core.Run, fn *core.FuncInfo, action string) {
 		"the action context handed to the user method derives from "+bac+", not from (Xid, BranchId, ResourceId, ApplicationData) of the request")
 	// the builder maps its parameters onto Xid / BranchId / ActionName and reads constant.ActionContext
 	var builder *core.FuncInfo
-	ast.Inspect(fn.Decl.Body, func(n ast.Node) bool {
-		if c, ok := n.(*ast.CallExpr); ok {
-			if f := w.Info(core.Callee(info, c)); f != nil && strings.Contains(bac, "call:"+core.ShortKey(f.Obj)+"(") && f.Pkg.PkgPath == pTCC {
-				builder = f
-			}
+	for _, f := range w.SortedFuncs() {
+		if f.Pkg.PkgPath == pTCC && !w.IsTestFile(f.Decl.Pos()) && strings.HasPrefix(bac, "call:"+core.ShortKey(f.Obj)+"(") {
+			builder = f
 		}
-		return true
-	})
+	}
 	if builder == nil {
 		r.Undecided("C05.ctx", key+" : context builder", w.Pos(actionCall.Pos()), "builder of the business action context not found")
 		return
